@@ -12,7 +12,7 @@ import subprocess
 import sys
 import time
 
-VERIF = "/verif"
+VERIF = os.path.dirname(os.path.dirname(os.path.abspath(__file__)))
 COQ = os.path.join(VERIF, "coq")
 TH = os.path.join(COQ, "theories")
 GEN = os.path.join(TH, "gen")
